@@ -129,6 +129,62 @@ def shift_scatterer(sc, v):
     return sc.translated(v[0], v[1], 0.0)
 
 
+def auto_theory_covariance(ctx):
+    """no theory named: the calculation (and hence the theory the default rule picks) must not depend on where the
+    configuration sits or how it is turned in the plane -- clusters of 3-6 small spheres whose largest separation is
+    close to the rule's threshold of 30 radii, shifted and rotated by generic angles"""
+    from holopy.scattering.interface import determine_default_theory_for
+    rng = ctx.rng
+    n = ctx.n(12, 120)
+    for i in range(n):
+        m = int(rng.integers(3, 7))
+        r = float(rng.uniform(0.08, 0.15))
+        # largest pair separation = f * 30 r with f just below / just above 1, or well inside (box diagonal > 30 r > separation)
+        f = float(rng.choice([rng.uniform(0.6, 0.999), rng.uniform(0.9, 0.999), rng.uniform(1.001, 1.2)]))
+        while True:
+            pts = rng.normal(size=(m, 3)) * [1.0, 1.0, 0.3]
+            dmax = max(np.linalg.norm(pts[a] - pts[b]) for a in range(m) for b in range(a + 1, m))
+            pts = pts * (f * 30 * r / dmax)
+            dmin = min(np.linalg.norm(pts[a] - pts[b]) for a in range(m) for b in range(a + 1, m))
+            if dmin > 2.2 * r:
+                break
+        c0 = np.array([float(rng.uniform(0, 2)), float(rng.uniform(0, 2)), float(rng.uniform(6, 9))])
+        sc = Spheres([Sphere(n=float(rng.uniform(1.45, 1.65)), r=r, center=tuple(c0 + p)) for p in pts], warn=False)
+        pol0 = T.rand_pol(rng)
+        mm = 4
+        x, y = c0[0] + rng.uniform(-2, 2, size=mm), c0[1] + rng.uniform(-2, 2, size=mm)
+        info = dict(kind="auto-theory", scatterer=repr(sc), separation_over_30r=f, pol=list(pol0), points=[x.tolist(), y.tolist()])
+        try:
+            t0 = type(determine_default_theory_for(sc)).__name__
+            h0 = calc_holo(detector_points(x=x, y=y, z=0.0), sc, illum_polarization=pol0, **OPT).values
+            for trial in range(3):
+                a = float(rng.uniform(0, 2 * math.pi)) if trial else math.pi / 4
+                pivot = (float(rng.normal()), float(rng.normal()))
+                scr = rotate_scatterer(sc, a, pivot)
+                ctx.tried("auto-theory-rotation", (m, round(f, 4), round(a, 4), i))
+                t1 = type(determine_default_theory_for(scr)).__name__
+                if t1 != t0:
+                    ctx.violation("C05:auto-theory:rotation", "with no theory named, a cluster of %d spheres (largest separation %.3f x 30 radii) is computed with %s, the same cluster turned by %.3f rad about the optical axis with %s" % (m, f, t0, a, t1),
+                                  dict(angle=a, pivot=list(pivot), theories=[t0, t1], **info))
+                    break
+                xr_, yr_ = zip(*[(lambda p: (p[0] + pivot[0], p[1] + pivot[1]))(rot2(a, (xx - pivot[0], yy - pivot[1]))) for xx, yy in zip(x, y)])
+                hr = calc_holo(detector_points(x=np.array(xr_), y=np.array(yr_), z=0.0), scr, illum_polarization=rot2(a, pol0), **OPT).values
+                dev = float(np.abs(hr - h0).max())
+                if not (dev <= (1e-6 if t0 == "Multisphere" else 1e-10) * max(1.0, float(np.abs(h0).max()))):
+                    ctx.violation("C05:auto-theory:rotation-value", "default theory (%s): rotating cluster, polarisation and detector by %.4f rad changed the hologram (dev %.3g)" % (t0, a, dev),
+                                  dict(angle=a, pivot=list(pivot), **info))
+                    break
+            v = rng.normal(size=2) * 5
+            t2 = type(determine_default_theory_for(shift_scatterer(sc, v))).__name__
+            ctx.tried("auto-theory-shift", (m, round(f, 4), i))
+            if t2 != t0:
+                ctx.violation("C05:auto-theory:shift", "with no theory named, shifting a cluster in the plane changes the theory used (%s -> %s)" % (t0, t2), dict(v=v.tolist(), **info))
+        except Exception as ex:
+            if type(ex).__name__ == "MultisphereFailure":
+                continue
+            ctx.violation("C05:auto-theory-raises:%s" % type(ex).__name__, "default-theory calculation raised %r" % (ex,), info)
+
+
 def search(ctx):
     rng = ctx.rng
     n = ctx.n(80, 1000)
@@ -242,6 +298,7 @@ def search(ctx):
                 ctx.notes.append("a generated cluster did not converge in the multi-sphere solver (a Python exception, not a wrong value): skipped")
                 continue
             ctx.violation("C05:raises:%s:%s" % (name, type(ex).__name__), "%s raised %r" % (name, ex), dict(kind="raises", tb=traceback.format_exc()[-600:], **info))
+    auto_theory_covariance(ctx)
     ctx.sample(dict(kind="search", relations=["shift (arbitrary with points, whole-pixel with grids)", "rotation by a generic angle about a random vertical axis",
                                               "mirror symmetry of a sphere's hologram for x/y polarisation"], theories="all incl. lens theories, particle above and below focus"))
 
